@@ -336,8 +336,8 @@ fn out_bytes(k: &Kawa<Checkout>) -> Vec<u8> {
 }
 
 /// real `handle_header` on a fresh request stream
-fn h2_run(hs: &[Hdr], end_stream: bool, max_list: u32, max_fields: u32, cx: Option<&Cx>) -> (H2Run, Result<(), String>, Option<HttpContext>) {
-    let mut pool = Pool::with_capacity(1, 1, BUF);
+fn h2_run_buf(hs: &[Hdr], end_stream: bool, max_list: u32, max_fields: u32, cx: Option<&Cx>, buf: usize) -> (H2Run, Result<(), String>, Option<HttpContext>) {
+    let mut pool = Pool::with_capacity(1, 1, buf);
     let kawa = Kawa::new(Kind::Request, Buffer::new(pool.checkout().expect("checkout")));
     let mut run = H2Run { _pool: pool, kawa, enc: loona_hpack::Encoder::new(), dec: loona_hpack::Decoder::new() };
     let mut block = vec![];
@@ -362,6 +362,15 @@ fn h2_run(hs: &[Hdr], end_stream: bool, max_list: u32, max_fields: u32, cx: Opti
         }
     });
     (run, r, real)
+}
+
+thread_local! {
+    /// stream buffer size of the current `h2` op (the pool's `buffer_size`)
+    static STREAM_BUF: std::cell::Cell<usize> = const { std::cell::Cell::new(BUF) };
+}
+
+fn h2_run(hs: &[Hdr], end_stream: bool, max_list: u32, max_fields: u32, cx: Option<&Cx>) -> (H2Run, Result<(), String>, Option<HttpContext>) {
+    h2_run_buf(hs, end_stream, max_list, max_fields, cx, STREAM_BUF.with(|b| b.get()))
 }
 
 /// decode the HEADERS / CONTINUATION / DATA frames an `H2BlockConverter` produced
@@ -652,6 +661,10 @@ impl Headers {
         let scheme = unhex(w[4]);
         let cx = if w[5] == "-" { None } else { Cx::parse(w[5]) };
         let hs = unhl(w[6]);
+        STREAM_BUF.with(|b| b.set(w.get(7).and_then(|x| x.parse().ok()).unwrap_or(BUF)));
+        if w.len() == 8 {
+            r.tags.push("h2:small-buffer".into());
+        }
         *last = Last { hs: hs.clone(), es, ml, mf, cx: cx.clone(), scheme: scheme.clone(), ..Default::default() };
         *keep = None;
         let (mut run, res, _real) = h2_run(&hs, es, ml, mf, cx.as_ref());
@@ -1452,7 +1465,7 @@ impl Area for Headers {
             let w: Vec<&str> = op.split_whitespace().collect();
             let line = match (w.first().copied().unwrap_or(""), w.len()) {
                 ("new", 1) => "new".to_string(),
-                ("h2", 7) => self.op_h2(&w, &mut r, &mut last, &mut keep),
+                ("h2", 7) | ("h2", 8) => self.op_h2(&w, &mut r, &mut last, &mut keep),
                 ("body", 3) => self.op_body(&w, &mut r, &mut last, &mut keep),
                 ("strict", 2) => {
                     r.tags.push("strict".into());
